@@ -309,18 +309,23 @@ theorem doPrecommit_lock {cfg : Config} {σ : State} {s : Nat} (I : InvP cfg σ 
         · exact precommitUnknown_lock I hs L b hq hnid
       · exact precommitUnknown_lock I hs L b hq hnid
 
-theorem enterPrecommit_lock {cfg : Config} {σ : State} (I : Inv cfg σ) (L : Lock cfg σ) (h r : Nat)
-    (hr : r ≤ σ.round) : Lock cfg (enterPrecommit cfg h r σ) := by
+theorem enterPrecommit_lock' {cfg : Config} {σ : State} (I : Inv cfg σ) (L : Lock cfg σ) (h r : Nat)
+    (hr : σ.step ≠ .commit → r ≤ σ.round) : Lock cfg (enterPrecommit cfg h r σ) := by
   unfold enterPrecommit
   split
   · exact L
-  · rename_i hg
-    have hrr : r = σ.round := by omega
-    have hst : σ.step.toNat < 6 := by
-      simp only [Step.toNat] at hg ⊢; omega
-    subst hrr
-    have J := doPrecommit_lock I hst L
-    exact J.of_eq rfl (by simp) rfl rfl rfl rfl
+  · split
+    · exact L
+    · rename_i hg hc
+      have hrr : r = σ.round := by have := hr hc; omega
+      have hst : σ.step.toNat < 6 := by
+        simp only [Step.toNat] at hg ⊢; omega
+      subst hrr
+      have J := doPrecommit_lock I hst L
+      exact J.of_eq rfl (by simp) rfl rfl rfl rfl
+
+theorem enterPrecommit_lock {cfg : Config} {σ : State} (I : Inv cfg σ) (L : Lock cfg σ) (h r : Nat)
+    (hr : r ≤ σ.round) : Lock cfg (enterPrecommit cfg h r σ) := enterPrecommit_lock' I L h r (fun _ => hr)
 
 /-! ### commit -/
 
@@ -435,19 +440,33 @@ theorem newRoundPrep_lock {cfg : Config} {σ : State} (L : Lock cfg σ) (r : Nat
   exact L.of_le hh (by rw [hr']; exact hr) hl (by rw [hv]; exact VLe_append_list _ _ _) hlk
     (newRoundPrep_lockedRound cfg r σ)
 
+/-- the new unlock site keeps the lock invariant: the polka it found is the witness -/
+theorem releaseStale_lock {cfg : Config} {σ : State} (L : Lock cfg σ) : Lock cfg (releaseStale cfg σ) := by
+  rcases releaseStale_cases cfg σ with e | ⟨e, lb, hl, hs⟩
+  · rw [e]; exact L
+  · rw [e]
+    obtain ⟨r', x, h1, h2, h3, h4⟩ := stalePolka_spec hs
+    refine L.unlock r' x (maj23_sound h4) h2 ?_ (fun r b _ hle => by omega)
+    intro blk hb
+    rw [hl] at hb
+    cases hb
+    exact h3
+
 theorem enterNewRound_lock {cfg : Config} {σ : State} (L : Lock cfg σ) (nb : Option Nat) (h r : Nat) :
     Lock cfg (enterNewRound cfg nb h r σ) := by
   unfold enterNewRound
   split
   · exact L
-  · rename_i hg
-    have J := newRoundPrep_lock L r (by omega)
-    simp only
-    split
-    · split
-      · exact J.schedule h r .newRound
-      · exact J
-    · exact enterPropose_lock J nb h r
+  · split
+    · exact L
+    · rename_i hg _
+      have J := releaseStale_lock (newRoundPrep_lock L r (by omega))
+      simp only
+      split
+      · split
+        · exact J.schedule h r .newRound
+        · exact J
+      · exact enterPropose_lock J nb h r
 
 /-! ### inputs -/
 
@@ -574,8 +593,8 @@ theorem afterPrecommit_lock {cfg : Config} {σ : State} (I : Inv cfg σ) (L : Lo
   split
   · have J1 := enterNewRound_inv I nb σ.height vr
     have L1 := enterNewRound_lock L nb σ.height vr
-    have J2 := enterPrecommit_inv J1 σ.height vr (enterNewRound_round_ge cfg nb vr σ)
-    have L2 := enterPrecommit_lock J1 L1 σ.height vr (enterNewRound_round_ge cfg nb vr σ)
+    have J2 := enterPrecommit_inv' J1 σ.height vr (enterNewRound_round_ge' cfg nb vr σ)
+    have L2 := enterPrecommit_lock' J1 L1 σ.height vr (enterNewRound_round_ge' cfg nb vr σ)
     split
     · exact enterCommit_lock J2 L2 _ _
     · exact enterPrecommitWait_lock L2 _ _
